@@ -824,7 +824,7 @@ func ruleGxzFlags(c *Ctx, r *Report, prefix string) {
 			for _, b := range theCtx.GB(newWriter) {
 				for _, ins := range b.Instrs {
 					if stdCalleeName(ins) == "os.OpenFile" {
-						if p, isP := ins.(*ssa.Call).Call.Args[2].(*ssa.Parameter); isP && p.Name() == "perm" {
+						if p, isP := ins.(*ssa.Call).Call.Args[2].(*ssa.Parameter); isP && isRefParam(p, "perm") {
 							okFlow = true
 						}
 					}
@@ -896,7 +896,7 @@ func optionStores(c *Ctx, cone map[*ssa.Function]bool, optT types.Type) []string
 				}
 				if pt, ok := fa.X.Type().(*types.Pointer); ok && types.Identical(pt.Elem(), optT) {
 					if _, isAlloc := fa.X.(*ssa.Alloc); !isAlloc {
-						out = append(out, FnName(fn)+":"+fieldOfAddr(fa).Name())
+						out = append(out, FnName(fn)+":"+refNameOf(fieldOfAddr(fa)))
 					}
 				}
 			}
